@@ -401,15 +401,15 @@ func mutEthData(n *vn.Node, fixEnvelope bool, f func(tx *ethMut) bool) func(*txt
 }
 
 type ethMut struct {
-	typ                     uint8
-	chainID                 *big.Int
-	nonce, gas              uint64
+	typ                      uint8
+	chainID                  *big.Int
+	nonce, gas               uint64
 	gasPrice, feeCap, tipCap *big.Int
-	to                      *common.Address
-	value                   *big.Int
-	data                    []byte
-	al                      ethtypes.AccessList
-	v, r, s                 *big.Int
+	to                       *common.Address
+	value                    *big.Int
+	data                     []byte
+	al                       ethtypes.AccessList
+	v, r, s                  *big.Int
 }
 
 func ethMutFrom(tx *ethtypes.Transaction) *ethMut {
